@@ -238,7 +238,68 @@ def oracle(ctx, case, res, real):
             ctx.count("partition-checked")
 
 
+def pair_adapters_demux(ctx):
+    """--pair-adapters with {name}: the file is named after the R1 adapter of the pair of adapters that was applied - also when one adapter sequence
+    occurs in several pairs under different names (non-unique dual indices). Expectation by construction (exact copies)."""
+    rng = ctx.rng
+    for _ in range(ctx.scale(10, 120)):
+        S = [pipe.rs(rng, 12) for _ in range(2)]
+        T = [pipe.rs(rng, 12) for _ in range(3)]
+        # R1: a0=S0, a1=S0 (the same sequence again), a2=S1;  R2: b0=T0, b1=T1, b2=T2
+        r1ads, r2ads = [("a0", S[0]), ("a1", S[0]), ("a2", S[1])], [("b0", T[0]), ("b1", T[1]), ("b2", T[2])]
+        order = list(range(3))
+        rng.shuffle(order)
+        r1ads, r2ads = [r1ads[i] for i in order], [r2ads[i] for i in order]
+        # (-O 8: a chance overlap of a few bases at the end of a read is not an occurrence here)
+        argv = ["--no-index", "-O", "8"] + [t for n_, s_ in r1ads for t in ("-a", f"{n_}={s_}")] + [t for n_, s_ in r2ads for t in ("-A", f"{n_}={s_}")] + ["--pair-adapters"]
+        discard = rng.random() < 0.3
+        if discard:
+            argv.append("--discard-untrimmed")
+        argv += ["-o", "{dir}/dm-{name}.1.fastq", "-p", "{dir}/dm-{name}.2.fastq"]
+        r1, r2, expect = [], [], {}
+        for i in range(rng.randint(8, 14)):
+            b1, b2 = pipe.rs(rng, rng.randint(10, 20), "AC"), pipe.rs(rng, rng.randint(10, 20), "AC")
+            k = rng.random()
+            if k < 0.7:
+                j = rng.randrange(3)
+                s1, s2, name = b1 + r1ads[j][1], b2 + r2ads[j][1], r1ads[j][0]
+            elif k < 0.85:
+                # an R1 adapter with the R2 adapter of a pair it does not belong to (and that shares no sequence with its own partner)
+                j = rng.randrange(3)
+                others = [x for x in range(3) if r1ads[x][1] != r1ads[j][1]]
+                x = rng.choice(others)
+                s1, s2, name = b1 + r1ads[j][1], b2 + r2ads[x][1], None
+            else:
+                s1, s2, name = b1, b2, None
+            r1.append((f"r{i}", s1, "I" * len(s1)))
+            r2.append((f"r{i}", s2, "5" * len(s2)))
+            expect[f"r{i}"] = name
+        case = dict(argv=argv, paired=True, reads1=r1, reads2=r2, with_qual=True, interleaved_in=False)
+        if rng.random() < 0.3:
+            case["cores"], case["buffer_size"] = 2, 600
+        res, real = pipe.run_real(case)
+        ctx.evaluations += 1
+        ctx.count("pair-adapters-demux")
+        inp = dict(case_input(case), cores=case.get("cores"))
+        if "error" in real:
+            ctx.failures.append(Failure("C15/run-failed", "--pair-adapters with {name} fails on a valid command line", inp, real["error"], None))
+            continue
+        where = {}
+        for fn, recs in real["files"].items():
+            for r in recs:
+                where.setdefault(rid(r[0]), set()).add(fn.rsplit(".", 2)[0])
+        for k_, name in expect.items():
+            exp = {f"dm-{name}"} if name else (set() if discard else {"dm-unknown"})
+            if where.get(k_, set()) != exp:
+                ctx.failures.append(Failure("C15/wrong-file", "with --pair-adapters a pair is not in the file named after the R1 adapter of the adapter pair that was applied",
+                                            inp, dict(read=k_, files=sorted(where.get(k_, set()))), sorted(exp)))
+                break
+        else:
+            ctx.nontriv(("pair-adapters-demux", tuple(argv)))
+
+
 def run(ctx):
+    pair_adapters_demux(ctx)
     pipeprop.run(ctx, "C15", FOCUS, oracle, 120, 2500,
                  "random command lines with focus on demultiplexing plus directed cases: named adapters (incl. duplicate names) on R1 (and R2), single/paired/"
                  "combinatorial, with and without --discard-untrimmed/--untrimmed-output; non-trivial = distinct read whose file was checked",
